@@ -518,7 +518,11 @@ func (pg *progGen) goal(size, nenv int) *G {
 		n := r.Intn(4)
 		gss := make([][]*G, n)
 		for i := range gss {
-			gss[i] = pg.goals(r.Intn(3), (size-1)/(2*n+1)+1, nenv)
+			k := r.Intn(3)
+			if r.Intn(5) == 0 {
+				k = 5 + r.Intn(3) // a long clause, in any position
+			}
+			gss[i] = pg.goals(k, (size-1)/(2*n+1)+1, nenv)
 		}
 		return gConde(gss...)
 	case 11:
